@@ -214,6 +214,8 @@ func runC01(c *Ctx) {
 		r.Check(okK, "C01.k-hash.raw-bytes-order", pos(rc.Ret), "k must be SetUniformBytes(SHA512(sig[0:32] ‖ publicKey ‖ message)) over the bytes as given: %s", short(vb["$k"].String(), 500))
 	}
 
+	pureScan(c, "C01.pure.no-package-state", fn)
+
 	// identity: who may write
 	pk := c.P.Pkg("pkg/ed25519")
 	if g, ok := pk.Members["identity"].(*ssa.Global); ok {
